@@ -322,7 +322,7 @@ class CallMixin:
             rootname = root.id if isinstance(root, ast.Name) else None
             locals_ok = getattr(p.frame.fn, "local_containers", ()) if p.frame.fn is not None else ()
             if meth in self.ir_mutator_names and rootname not in locals_ok:
-                p.ghost["$ir_dirty"] = f"{meth} on {rootname} at L{getattr(node, 'lineno', '?')}"
+                self.mark_dirty(p, f"{meth} on {rootname} at L{getattr(node, 'lineno', '?')}")
             q = p.copy()
             return [(p, VOpaque("result of " + f.what)), (q, Exc("AnyException", f"L{getattr(node, 'lineno', '?')}:{f.what}"))]
         raise Unsupported(f"call on opaque value {f.what} at L{getattr(node, 'lineno', '?')}")
